@@ -115,6 +115,7 @@ type Frame struct {
 	origin map[ssa.Value]*PtrV // slice values loaded from an address
 	iter   map[*ssa.BasicBlock]int
 	cutAt  map[*ssa.BasicBlock]bool
+	decAt  map[*ssa.BasicBlock][]*Term // values of the loop's variant expressions at the loop head (decreases clauses)
 	root   bool
 }
 
@@ -164,6 +165,12 @@ func (s *State) clone() *State {
 		}
 		for k, v := range f.cutAt {
 			nf.cutAt[k] = v
+		}
+		if len(f.decAt) > 0 {
+			nf.decAt = make(map[*ssa.BasicBlock][]*Term, len(f.decAt))
+			for k, v := range f.decAt {
+				nf.decAt[k] = v
+			}
 		}
 		n.frames[i] = nf
 	}
@@ -1617,17 +1624,20 @@ const implicitUnrollCap = 12
 func (x *Exec) handleLoopHead(st *State, fr *Frame, lp *Loop, b, pred *ssa.BasicBlock) bool {
 	back := pred != nil && b.Dominates(pred) && lp.blocks[pred]
 	var clauses []*Clause
+	var variants []*Clause // decreases clauses: integer expressions that get smaller with every iteration and never go below zero
 	unroll := false
 	if fc := x.w.contracts[funcKey(fr.fn)]; fc != nil {
 		for _, c := range x.w.loopClauses(fr.fn, fc, lp) {
 			if c.Kind == "unroll" {
 				unroll = true
+			} else if c.Kind == "decreases" {
+				variants = append(variants, c)
 			} else if c.Kind != "exit" {
 				clauses = append(clauses, c)
 			}
 		}
 	}
-	userClauses := len(clauses)
+	userClauses := len(clauses) + len(variants)
 	if cps := x.w.commonPostFor(st.frames[0].fn); len(cps) > 0 && !x.pureMode && x.specEval == 0 {
 		// type-wide postconditions relate the current state to the entry state: valid at every loop head
 		clauses = append(clauses, cps...)
@@ -1662,6 +1672,19 @@ func (x *Exec) handleLoopHead(st *State, fr *Frame, lp *Loop, b, pred *ssa.Basic
 		for _, g := range x.autoInvariants(st, fr, lp, b) {
 			x.oblige(st, "invariant-preserved", fmt.Sprintf("loop%d:auto:%s", lp.ord, g.name), []string{"C13"}, g.t, token.NoPos)
 		}
+		for i, c := range variants {
+			if i >= len(fr.decAt[b]) || fr.decAt[b][i] == nil {
+				continue
+			}
+			v1, err := x.evalClauseInFrame(st, fr, c, lp)
+			if err != nil {
+				x.contractError(c, err)
+				continue
+			}
+			v0 := fr.decAt[b][i]
+			// termination: the variant was not negative when the iteration began and is smaller now
+			x.oblige(st, "decreases", loopOblName(lp, c), c.Props, And(Cmp(">=", v0, IntT(0)), Cmp("<", v1, v0)), b.Instrs[0].Pos())
+		}
 		return false
 	}
 	// entry: establish, havoc, assume
@@ -1689,6 +1712,21 @@ func (x *Exec) handleLoopHead(st *State, fr *Frame, lp *Loop, b, pred *ssa.Basic
 	}
 	for _, g := range x.autoInvariants(st, fr, lp, b) {
 		st.assume(g.t)
+	}
+	if len(variants) > 0 {
+		if fr.decAt == nil {
+			fr.decAt = map[*ssa.BasicBlock][]*Term{}
+		}
+		vals := make([]*Term, len(variants))
+		for i, c := range variants {
+			v, err := x.evalClauseInFrame(st, fr, c, lp)
+			if err != nil {
+				x.contractError(c, err)
+				continue
+			}
+			vals[i] = v
+		}
+		fr.decAt[b] = vals
 	}
 	return true
 }
